@@ -253,8 +253,9 @@ Proof.
   split; intros [D [x [Hc Hv]]]; (split; [exact D|exists x; split; [exact Hc|now apply V]]).
 Qed.
 
-Lemma D_deliver_top s c :
-  TreeL s -> Handle s -> (forall c', c' <> c -> alive_at s c') -> DInv (deliver_top s c).
+Lemma D_deliver_top' s c :
+  TreeL s -> (forall c', c' <> c -> s_chandle (scopes s c') = true -> In (HDeliver c') (ready s)) ->
+  (forall c', c' <> c -> alive_at s c') -> DInv (deliver_top s c).
 Proof.
   intros T Hd Al. pose proof (kframe_deliver_top s c) as K. split.
   - intros c'. destruct (Nat.eq_dec c' c) as [->|Hne].
@@ -269,6 +270,25 @@ Proof.
     + apply deliver_top_ready.
     + unfold deliver_top at 1. rewrite (deliver_scopes_other c c' _ Hne s c). intros H.
       destruct (kf_ready _ _ K) as [l [E _]]. rewrite E. apply in_or_app. left. now apply Hd.
+Qed.
+
+Lemma D_deliver_top s c :
+  TreeL s -> Handle s -> (forall c', c' <> c -> alive_at s c') -> DInv (deliver_top s c).
+Proof. intros T Hd Al. apply D_deliver_top'; [exact T|intros c' _; apply Hd|exact Al]. Qed.
+
+(* the scheduled callback runs: it leaves the ready queue, delivers, and is back iff someone is still reached *)
+Lemma D_run_deliver s c :
+  TreeL s -> DInv s ->
+  DInv (deliver_top (set_running (set_ready s (remove_first (HDeliver c) (ready s))) None) c).
+Proof.
+  intros T [Al Hd]. set (s1 := set_running (set_ready s (remove_first (HDeliver c) (ready s))) None).
+  assert (T1 : TreeL s1).
+  { apply (TreeL_ext s s1 T eq_refl); [intros x; now repeat split|intros t; reflexivity]. }
+  apply D_deliver_top'; [exact T1| |].
+  - intros c' Hne H. cbn. apply in_remove_first_ne; [now apply Hd|]. intros E. inversion E. now apply Hne.
+  - intros c' _. apply (alive_at_mono s s1 c' (Al c')); auto.
+    intros [t [D [x [Hc Hv]]]]. exists t. split; [exact D|]. exists x. split; [exact Hc|].
+    apply (vis_view s s1 c' x); [intros y; now repeat split|exact Hv].
 Qed.
 
 (* ---------------- restart: the walk up to the nearest cancelled scope ---------------- *)
